@@ -424,11 +424,13 @@ def mon_c12(rec):
                     not np.allclose(c.stacked_data_mean, mean, rtol=0, atol=tol_mean):
                 out.append((f"round {i} cluster {k}: mean is not the mean of its {len(members)} windows", None))
                 continue
-            if c.empirical_covariance is None or np.shape(c.empirical_covariance) != cov.shape or \
-                    not np.allclose(c.empirical_covariance, cov, rtol=0, atol=tol_cov):
+            # (a single stacked column makes np.cov return a 0-d array: same value, accepted)
+            got_cov = None if c.empirical_covariance is None else np.atleast_2d(c.empirical_covariance)
+            if got_cov is None or got_cov.shape != cov.shape or \
+                    not np.allclose(got_cov, cov, rtol=0, atol=tol_cov):
                 rb = refs.mean_cov(d.X[members], not d.biased)[1]
-                hint = " (matches the other estimator)" if np.shape(c.empirical_covariance) == rb.shape and \
-                    np.allclose(c.empirical_covariance, rb, rtol=0, atol=tol_cov) else ""
+                hint = " (matches the other estimator)" if got_cov is not None and got_cov.shape == rb.shape and \
+                    np.allclose(got_cov, rb, rtol=0, atol=tol_cov) else ""
                 out.append((f"round {i} cluster {k}: covariance is not the "
                             f"{'biased' if d.biased else 'unbiased'} sample covariance of its windows{hint}", None))
                 continue
@@ -504,8 +506,8 @@ def partition_violation(st, K, T=None):
         got = [int(x) for x in st.clusters[k].member_points]
         if got != want:
             return f"cluster {k} members {got} != points labelled {k}: {want}"
-    if any(not 0 <= l < K for l in labels):
-        return f"label outside [0,{K})"
+    if any(not -1 <= l < K for l in labels):
+        return f"label outside [-1,{K})"
     return None
 
 
